@@ -91,7 +91,7 @@ PROPERTY_META = {
                 design_ref='DESIGN.md 6 C11'),
     'C06': dict(claimed=True, level='model_checking',
                 text='A ghost lifetime model of the non-trivial value type vf::Tracked (every special member reports to a hook; one arbitrary watched address) asserts inside every function under contract: no construction over an alive object, no read/assign/destroy of a dead object, no byte copy over an alive object; reference assignment, swap and ElementTraits::destruct are verified to construct nothing, destroy exactly the items of the element once, and assign each item through its own operator.',
-                note='Bounded: span items <= 2. Vector-level units with non-trivial types (vec.f4t, vec.f4m, vec.c4_f4t): pop_back, clear, erase, destructor, emplace_back, operator[], copy/move assignment; for the single-field lists also move construction and swap (no object is touched), and for FixedSize<Tracked> reserve beyond capacity (relocation: nothing is constructed over an alive object, no byte copy overwrites one, no object of the returned block stays alive). Copy construction and move assignment of FixedSize<Tracked> vectors are additionally verified with the watched object in the source operand (vec.f4t.F0.*.src_watch.*): a copy leaves the source objects alive and not moved from and copy-constructs every held item exactly once; an element-wise move leaves the source objects alive as long as the source holds them. The same copy-construction contract is discharged for FixedSize<vf::TrackedC> (trivial move constructor and destructor, user-provided copy constructor: the copy path has to test copy-triviality).',
+                note='NOT COVERED: vectors with a VaryingSize parameter of a non-trivial type (overlapping element-wise relocation on erase); the pinned tree has a genuine defect there (D6 in DESIGN.md 1, reproduced by replay/native/d6.cpp) that no unit reaches. Bounded: span items <= 2. Vector-level units with non-trivial types (vec.f4t, vec.f4m, vec.c4_f4t): pop_back, clear, erase, destructor, emplace_back, operator[], copy/move assignment; for the single-field lists also move construction and swap (no object is touched), and for FixedSize<Tracked> reserve beyond capacity (relocation: nothing is constructed over an alive object, no byte copy overwrites one, no object of the returned block stays alive). Copy construction and move assignment of FixedSize<Tracked> vectors are additionally verified with the watched object in the source operand (vec.f4t.F0.*.src_watch.*): a copy leaves the source objects alive and not moved from and copy-constructs every held item exactly once; an element-wise move leaves the source objects alive as long as the source holds them. The same copy-construction contract is discharged for FixedSize<vf::TrackedC> (trivial move constructor and destructor, user-provided copy constructor: the copy path has to test copy-triviality).',
                 design_ref='DESIGN.md 6 C06'),
     'C17': dict(claimed=True, level='model_checking',
                 text='The exception-enabled IR of the real code is verified with an allocation hook that fails nondeterministically at every call (which covers failing the k-th allocation for every k): contracts of AllocatorAwarePointer construction/copy construction/copy assignment (unbounded, proof) and of vector construction, reserve, copy construction, copy assignment and move assignment between unequal allocators state for the exceptional exit: nothing leaked (live-block counter), no double free (ledger assertions), the source completely unchanged, the target still valid (owns its blocks, reported capacity fits its block); reaching std::terminate is an assertion failure.',
